@@ -129,6 +129,10 @@ def join_all(avs: Iterable[AV], ty: Optional[str] = None) -> AV:
     return AV(frozenset(prov), ty if ty is not None else (t or T_UNK), T_UNK, frozenset(oprov))
 
 
+COMMON_TENSOR_OP_ATTRS = {"clone", "detach", "to", "requires_grad", "requires_grad_", "shape", "dtype", "device", "dim",
+                          "size", "cpu", "cuda", "double", "float", "half"}
+
+
 @dataclass
 class Sink:
     fn: FunctionInfo
@@ -654,6 +658,13 @@ class FuncAnalysis:
         name = t.args[0].id
         d = dotted(t.func)
         ty = None
+        if d == "hasattr" and len(t.args) == 2 and isinstance(t.args[1], ast.Constant) and t.args[1].value in COMMON_TENSOR_OP_ATTRS:
+            # every tensor and every operator has this attribute: where the test FAILS the value is neither (a python
+            # scalar / flag / size / None), i.e. it owns no tensor storage
+            tgt = e_true if neg else e_false
+            if name in tgt and tgt[name].ty in (T_UNK,):
+                tgt[name] = SCALAR
+            return
         if d == "torch.is_tensor":
             ty = T_TENSOR
         elif d == "isinstance" and len(t.args) == 2:
@@ -1166,7 +1177,8 @@ class FuncAnalysis:
             return self._call_unknown_callable(recv, allargs)
         if isinstance(recv_expr, ast.Name) and recv_expr.id == self.self_name and self.fn.cls is not None:
             if mname == "__class__":
-                return CALLABLE
+                # self.__class__(...) constructs (a subclass of) the enclosing class: the new operator holds its arguments
+                return self._construct(self.fn.cls, e, args, kwargs, env)
             k = f"{self.self_name}.{mname}"
             impls = eng.cha(self.fn.cls, mname)
             if impls:
@@ -1175,8 +1187,9 @@ class FuncAnalysis:
                 return self._call_unknown_callable(env[k], allargs)
             return self._call_unknown_callable(recv, allargs)
         # cls(...) / self.__class__(...) : constructor of (a subclass of) the enclosing class
-        if recv.ty == T_CALL and mname == "__class__":
-            return CALLABLE
+        if mname == "__class__":
+            held = frozenset().union(*[a.allprov for a in allargs]) if allargs else frozenset()
+            return AV(frozenset(), T_OP if recv.ty == T_OP else T_UNK, T_UNK, held)
         return self._method_call(recv, recv_expr, mname, e, args, kwargs, env)
 
     def _call_qualified(self, q: str, e, args, kwargs, allargs, env) -> AV:
